@@ -101,6 +101,10 @@ def record_class(rid, rcls, cmds, bitnames):
         try:
             s = str(r)
             sres = "ok" if isinstance(s, str) else "exc:nonstr"
+            # every other way of rendering the answer as text: repr, format, %-formatting, inside a container
+            for t in (repr(r), format(r), "%s" % (r,), "%r" % (r,), "{}".format(r), str([r]), str({"a": r})):
+                if not isinstance(t, str):
+                    sres = "exc:nonstr"
         except Exception as e:  # noqa
             sres = "exc:" + type(e).__name__
         cells.append({"raw": raw, "vk": vk, "vi": vi, "vn": vn, "status": status, "err": err,
@@ -171,7 +175,7 @@ def run(tier, seed, replay=None):
             "bit attribute names are the specification's display names with ' ' -> '_' and '-' removed (library API rule)",
             "numeric vs generic response for an 8-bit value is the library's choice; either is accepted, judged for "
             "consistency over all 513 outcomes",
-            "text of str() is not judged, only that it does not raise MissingResponse/ResponseError",
+            "text of str()/repr()/format() is not judged, only that rendering does not raise",
         ]
         rej = []
         for rj in rejects:
